@@ -3,7 +3,7 @@ PROPS = ["C24", "C25", "C26", "C30"]
 CLAIMS = {
     'C24': (
         'model_checking',
-        'TLC checks the C24 monitors (no effect on the agent and no data-bearing reply or stream record before an error-free reply to a version-1 handshake, resp. -- with an auth key configured -- before an error-free reply to an auth request carrying the right key; every header of another command sent with intact framing while authentication is missing is answered by an error header with its Seq, judged at a close barrier) exhaustively on spec/AgentIPC.tla (every sequence of wire objects up to the bound: 20 commands + an unknown one, bodies valid / wrong / absent / malformed, handshake versions 1 / 0 / 2 / 2^31-1, keyed and unkeyed agent; the model includes the reuse of the header variable and the unconsumed bodies of rejected commands) and on every object of TLC-simulated sequences put on the wire of a real AgentIPC of a real quiet Agent by a raw msgpack client; every line (replies, effects, closure) is validated by TLC against the model.',
+        'TLC checks the C24 monitors (no effect on the agent and no data-bearing reply or stream record before an error-free reply to a version-1 handshake, resp. -- with an auth key configured -- before an error-free reply to an auth request carrying the right key; every header of another command sent with intact framing while authentication is missing is answered by an error header with its Seq, judged at a close barrier) exhaustively on spec/AgentIPC.tla (every sequence of wire objects up to the bound: 20 commands + an unknown one, bodies valid / wrong / absent / malformed, handshake versions 1 / 0 / 2 / 2^31-1, keyed and unkeyed agent; the model includes the reuse of the header variable and the unconsumed bodies of rejected commands) and on every object of TLC-simulated sequences put on the wire of a real AgentIPC of a real quiet Agent by a raw msgpack client; requests are also PIPELINED (k >= 2 complete requests handed over with one write before anything is read): every complete request the server has no reason to leave unanswered gets a reply with its Seq, in request order (C24_no_reply, C24_reply_order); every line (replies, effects, closure) is validated by TLC against the model.',
         'Trusts TLC, the raw client and its framing rule (a body belongs to the header whose write it shares), the effect observers (broadcast queues drained through the real GetBroadcasts, LocalMember tags, transport dial gate, overlay accessors for handler / client counts, Serf.State) and the quiet configuration built like quiet.NewNode but handed to agent.Create.',
         'TLA+ spec (AgentIPC) + TLC exhaustive check of the monitor; TLC-simulated object sequences replayed on the real agent RPC server; TLC trace validation of every object with the property monitor on observed replies and effects',
         '5 C24',
@@ -17,7 +17,7 @@ CLAIMS = {
     ),
     'C26': (
         'model_checking',
-        'TLC enumerates every single-pattern members-filtered request of the regex AST domain (spec/Regex.tla RE(d) over {a, b, .} with concatenation, alternation, star, optional; 13 status patterns; 8 invalid patterns per field) plus sampled mixed name/status/tag requests, one RPC per TLC state against a real agent holding 39 members (every name of length <= 3 over {a,b,c}, seeded statuses alive/leaving/left/failed and tag values, missing tags); TLC compares the returned member set with the documented whole-string meaning (Regex!Lang) and checks that an invalid pattern yields no list; the model of the code is the oracle since the grouping fix a8ceccf (0 divergences expected); laws relating the whole-string matcher, the splitting matcher used for statuses and the historic ungrouped anchoring are checked as ASSUME.',
+        'TLC enumerates every single-pattern members-filtered request of the regex AST domain (spec/Regex.tla RE(d) over {a, b, .} with concatenation, alternation, star, optional; 13 status patterns; 8 invalid patterns per field, and the cross product of an invalid pattern in one field with absent / valid-matching / valid-non-matching patterns in the others) plus sampled mixed name/status/tag requests, one RPC per TLC state against a real agent holding 39 members (every name of length <= 3 over {a,b,c}, seeded statuses alive/leaving/left/failed and tag values, missing tags); TLC compares the returned member set with the documented whole-string meaning (Regex!Lang) and checks that an invalid pattern yields no list; the model of the code is the oracle since the grouping fix a8ceccf (0 divergences expected); laws relating the whole-string matcher, the splitting matcher used for statuses and the historic ungrouped anchoring are checked as ASSUME.',
         'Trusts TLC, spec/Regex.tla as the meaning of the pattern ASTs, the renderer from ASTs to Go syntax with minimal bracketing, and the population set-up through NotifyJoin / NotifyLeave and leave intents (verified against Serf.Members before the requests).',
         'TLA+ functional oracle (MemberFilter over Regex) + TLC enumeration of the bounded input domain; every request executed on the real agent through the real IPC; TLC trace validation comparing observed and documented result',
         '5 C26',
